@@ -230,6 +230,11 @@ impl<'a> Interp<'a> {
                 Ctrl::Eval(e, env) => self.step_eval(e, env, &mut kont),
                 Ctrl::Apply(f, args) => self.apply(f, args, &mut kont),
                 Ctrl::Raise(payload) => {
+                    if let Val::ErrObj(k) = &payload {
+                        if &**k == "OutOfFuel" {
+                            return Err(PieceOutcome::OutOfFuel);
+                        }
+                    }
                     // find the nearest handler, run the `after` thunks of the extents left
                     self.note("raise");
                     let mut steps: Vec<(Val<'a>, Kont<'a>)> = vec![];
@@ -963,6 +968,11 @@ impl<'a> Interp<'a> {
                             Ctrl::Apply(h.clone(), vec![payload.clone()])
                         }
                         Final::Uncaught(payload) => {
+                            if let Val::ErrObj(k) = payload {
+                                if &**k == "OutOfFuel" {
+                                    return Err(PieceOutcome::OutOfFuel);
+                                }
+                            }
                             let kind = match payload {
                                 Val::ErrObj(k) => k.to_string(),
                                 other => format!("raised {}", canon(other)),
